@@ -1,4 +1,6 @@
 """C02 - LTL model checking returns exactly the states whose every path satisfies g."""
+import json
+
 import gen
 import mcfam
 from gen import P, Q, TR, FA, L0, M0
@@ -71,6 +73,22 @@ def run(ctx):
     for fam in (fam_a, fam_b, fam_c, fam_d, fam_e, fam_n, fam_l):
         for c in fam:
             c['logic'] = 'LTL'
+    # Layer-B binding (diagnostic): local consistency of the tableau atoms the real _build_atoms produced
+    from common import pmap
+    lists = pmap(mcfam.ltl_atoms_events, [dict(c, logic='LTL') for c in rnd.sample(fam_a + fam_l + fam_n, 800 if q else 12000)])
+    if any(x is None for x in lists):
+        ctx.note('mechanism_binding', 'drift(_build_atoms no longer exists)')
+    else:
+        aev = []
+        for evs in lists:
+            for e in evs:
+                e['tid'] = len(aev)
+                aev.append(e)
+        drift = ctx.validate('TraceAtoms.tla', 'Trace.cfg', aev)
+        ctx.note('atom_lists_validated', len(aev))
+        ctx.note('mechanism_binding', 'ok' if not drift else 'drift(_build_atoms): %d of %d atom lists contain a locally inconsistent atom' % (len(drift), len(aev)))
+        if drift:
+            ctx.log('mechanism drift (diagnostic only): ' + json.dumps(sorted(drift.items())[0][1])[:400])
     events, bad = mcfam.run_families(ctx, [('scope2', fam_a), ('catalogue3', fam_b), ('deep', fam_c), ('liveness3', fam_l), ('nary', fam_n), ('random', fam_d),
                                            ('text', fam_e)])
 
